@@ -86,15 +86,42 @@ def gen_mesh(rng, etype, dims, spacing_max=3, jitter=True, map_name='id', id_mod
         return xs
     X, Y, Z = axis(nx), axis(ny), axis(nz)
     M = MAPS[map_name]
-    lat = {}
-    for i in range(nx):
-        for j in range(ny):
-            for k in range(nz):
-                p = [scale * X[i], scale * Y[j], scale * Z[k]]
-                if jitter:
-                    p = [c + rng.randint(-1, 1) for c in p]
-                q = tuple(sum(M[r][c] * p[c] for c in range(3)) for r in range(3))
-                lat[(i, j, k)] = q
+
+    def lattice(jit):
+        lat = {}
+        for i in range(nx):
+            for j in range(ny):
+                for k in range(nz):
+                    p = [scale * X[i], scale * Y[j], scale * Z[k]]
+                    if jit:
+                        p = [c + rng.randint(-1, 1) for c in p]
+                    q = tuple(sum(M[r][c] * p[c] for c in range(3)) for r in range(3))
+                    lat[(i, j, k)] = q
+        return lat
+
+    def degenerate(lat):
+        # a jittered Kuhn tet can be exactly flat (volume 0: e.g. edge vectors
+        # (-1,2,0),(0,4,2),(2,2,3)); a zero-volume element is not a mesh the
+        # property speaks about (its volume weight is 0, the 'positive element
+        # volumes' premise of the theorems fails): redraw the jitter
+        if etype != 'tet':
+            return False
+        for i in range(nx - 1):
+            for j in range(ny - 1):
+                for k in range(nz - 1):
+                    for tet in KUHN:
+                        p = [lat[(i + a, j + b, k + c)] for a, b, c in tet]
+                        if det3(sub(p[1], p[0]), sub(p[2], p[0]), sub(p[3], p[0])) == 0:
+                            return True
+        return False
+    lat = lattice(jitter)
+    if jitter:
+        for _ in range(50):
+            if not degenerate(lat):
+                break
+            lat = lattice(True)
+        else:
+            lat = lattice(False)
     keys = list(lat)
     rng.shuffle(keys)          # which lattice point gets which storage slot
     n = len(keys)
